@@ -242,10 +242,13 @@ func (z *ZodLazy[T]) PrefaultFunc(fn func() any) *ZodLazy[T] {
 // Metadata Methods
 // =============================================================================
 
-// Meta stores metadata for this lazy schema.
+// Meta returns a new schema with the given metadata stored in the global
+// registry; the receiver and its registry entry are unchanged.
 func (z *ZodLazy[T]) Meta(meta core.GlobalMeta) *ZodLazy[T] {
-	core.GlobalRegistry.Add(z, meta)
-	return z
+	in := z.internals.Clone()
+	clone := z.withInternals(in)
+	core.GlobalRegistry.Add(clone, meta)
+	return clone
 }
 
 // Describe registers a description in the global registry.
